@@ -595,7 +595,11 @@ def run(ctx):
     # the request target and Host are built from URL components; that these contain no space, control character or raw
     # non-ASCII text is the canonical-form construction of C10, re-established here under C16-D1 (shared rules)
     from . import c10
-    from .common import RemapCtx, url_decode_sites_rule
+    from .common import RemapCtx, url_decode_sites_rule, child_record_rules
+    # the Referer value is the parent URL of the record: it must be the normal form of the page, not a string taken from a request
+    child_record_rules(RemapCtx(ctx, {}), 'C16-D5')
+    from .common import proxy_failure_closes_rule
+    proxy_failure_closes_rule(ctx, 'C16-D2')
     c10.run(RemapCtx(ctx, {'C10-D1': 'C16-D1', 'C10-D2': 'C16-D1', 'C10-D3': 'C16-D1', 'C10-D4': 'C16-D1', 'C10-D5': 'C16-D1'}))
 
 
